@@ -131,10 +131,18 @@ STUB = """package telegram
 
 import "github.com/xelaj/mtproto/internal/encoding/tl"
 
-// stub of the hand-written part of package telegram the generated code leans on
-type Client struct{}
+// stub of the hand-written part of package telegram the generated code leans on: the request function
+// records what it is handed and answers with what the reflection program chose
+type Client struct {
+	VerifLast   tl.Object
+	VerifAnswer interface{}
+	VerifErr    error
+}
 
-func (c *Client) MakeRequest(msg tl.Object) (interface{}, error) { return nil, nil }
+func (c *Client) MakeRequest(msg tl.Object) (interface{}, error) {
+	c.VerifLast = msg
+	return c.VerifAnswer, c.VerifErr
+}
 """
 
 
@@ -145,7 +153,7 @@ def go_str_hex(s):
 def compile_stage(ctx, tlgen, todo, texts, model, meta):
     """todo: case ids. Returns stats; records violations."""
     st = {"schemas_run": 0, "generated": 0, "generated_twice_identical": 0, "compiled": 0, "reflected_equal": 0,
-          "outside_subset": 0, "outside_subset_which": [], "structs_compared": 0, "fields_compared": 0, "enum_values_compared": 0, "methods_compared": 0}
+          "outside_subset": 0, "outside_subset_which": [], "structs_compared": 0, "fields_compared": 0, "enum_values_compared": 0, "methods_compared": 0, "methods_executed": 0}
     scratch = tempfile.mkdtemp(prefix="c14-scratch-", dir="/tmp")
     try:
         with open(scratch + "/go.mod", "w") as f:
@@ -246,7 +254,14 @@ def compile_stage(ctx, tlgen, todo, texts, model, meta):
                     st["outside_subset"] += 1
                     st["outside_subset_which"].append("%s %s" % (label, subsets.get(cid)))
                 continue
-            got = reflect_proj([l.split("\t") for l in o.splitlines() if l])
+            rrows = [l.split("\t") for l in o.splitlines() if l]
+            got = reflect_proj(rrows)
+            badcalls = call_status(rrows)
+            if badcalls and in_subset:
+                C.violation(ctx, key + ":method-body", "generated methods for %s misbehave when executed: %s" % (label, badcalls[:4]),
+                            {"schema_text": texts[cid].decode("utf-8", "replace"), "expected": "answers of the declared kind come back unchanged, a failed request gives an error, a wrong-kind answer is refused",
+                             "got": badcalls[:20], "expected_all": None, "oracle": "execution of the generated methods against a stub request function"})
+                continue
             want, status = model_proj(model.get(cid, []))
             if status != "ok":
                 if in_subset:
@@ -262,8 +277,13 @@ def compile_stage(ctx, tlgen, todo, texts, model, meta):
                     st["outside_subset"] += 1
                     st["outside_subset_which"].append("%s %s" % (label, subsets.get(cid)))
                     continue
-                w = [d for d in diff if d in want][:6]
-                g = [d for d in diff if d in got][:6]
+                w = [d for d in diff if d in want]
+                g = [d for d in diff if d in got]
+                # pair up the two views of the same method / field so that the message names the culprit
+                gk = {(d[0], d[1]) if d[0] in ("call", "method") else (d[0], d[1], d[2]): d for d in g}
+                w.sort(key=lambda d: 0 if ((d[0], d[1]) if d[0] in ("call", "method") else (d[0], d[1], d[2])) in gk else 1)
+                g = [gk[k] for k in [((d[0], d[1]) if d[0] in ("call", "method") else (d[0], d[1], d[2])) for d in w] if k in gk] + [d for d in g if d not in [gk.get(((x[0], x[1]) if x[0] in ("call", "method") else (x[0], x[1], x[2]))) for x in w]]
+                w, g = w[:6], g[:6]
                 C.violation(ctx, key + ":layout", "generated package for %s declares something else than the schema says (Classify.v): expected %s got %s"
                             % (label, [show_item(x) for x in w], [show_item(x) for x in g]),
                             {"schema_text": texts[cid].decode("utf-8", "replace"), "expected": [show_item(x) for x in w], "got": [show_item(x) for x in g],
@@ -272,7 +292,7 @@ def compile_stage(ctx, tlgen, todo, texts, model, meta):
                 continue
             st["reflected_equal"] += 1
             for it in got:
-                st[{"struct": "structs_compared", "field": "fields_compared", "enum": "enum_values_compared", "method": "methods_compared"}[it[0]]] += 1
+                st[{"struct": "structs_compared", "field": "fields_compared", "enum": "enum_values_compared", "method": "methods_compared", "call": "methods_executed"}[it[0]]] += 1
     finally:
         shutil.rmtree(scratch, ignore_errors=True)
     return st
@@ -288,6 +308,8 @@ def show_item(x):
         return "enum value %x of %s (%s)" % (int(x[1]), txt(x[2]), txt(x[3]))
     if k == "method":
         return "method %s(%s) %s" % (txt(x[1]), txt(x[2]), txt(x[3]))
+    if k == "call":
+        return "calling %s hands MakeRequest a %s (id %x) with argument>field %s" % (txt(x[1]), txt(x[2]), int(x[3]), x[4])
     return str(x)
 
 
@@ -314,15 +336,31 @@ def model_proj(rows):
             items.add(("enum", r[3], r[4], r[5]))
         elif r[2] == "method":
             items.add(("method", r[3], r[4], r[5]))
+        elif r[2] == "call":
+            items.add(("call", r[3], r[4], r[5], r[6]))
     return items, status
 
 
 def reflect_proj(rows):
+    """descriptors + executed calls; the result status of a call is judged separately (call_status)"""
     items = set()
     for r in rows:
         if r[0] in ("struct", "field", "enum", "method"):
             items.add(tuple(r))
+        elif r[0] == "call":
+            items.add(tuple(r[:5]))
     return items
+
+
+def call_status(rows):
+    """methods whose execution went wrong: answers altered, error path, wrong-kind answer accepted"""
+    bad = []
+    for r in rows:
+        if r[0] == "call":
+            st = txt(r[5]) if len(r) > 5 else "?"
+            if st not in ("ok:wrong-kind=panic", "ok:wrong-kind=error"):
+                bad.append("%s: %s" % (txt(r[1]), st))
+    return bad
 
 
 # ---------------------------------------------------------------------------------------------
@@ -395,6 +433,7 @@ def run(ctx):
     cursor_cases = 0
     classes = {}
     inproc_runs = {}
+    timing_retries = []
     todo = []
     for cid, rows in impl.items():
         if cid.startswith("c"):
@@ -422,8 +461,23 @@ def run(ctx):
         shown = text.decode("utf-8", "replace")
         key = "schema:" + (label if label else hashlib.sha1(text).hexdigest()[:16])
         replay = {"schema_text": shown, "schema_hex": text.hex(), "kind": kind}
+        retried = False
+        if icls == "hang":
+            # confirm before reporting: the 5 s watchdog of the batch run can fire under machine load (or while an
+            # earlier, really hanging case still spins); the case is run again alone with 60 s
+            rf = "%s/retry_%s.tl" % (ctx.work, cid)
+            with open(rf, "wb") as f:
+                f.write(text)
+            rc, o = C.sh([hb, "one", rf, "60"], env=ctx.env(), timeout=120)
+            os.remove(rf)
+            lines = [l.split("\t") for l in o.splitlines() if l]
+            if rc == 0 and lines and lines[0][0] == "P" and lines[0][1] in ("ok", "err"):
+                timing_retries.append({"case": cid, "schema": shown[:120], "batch_verdict": "hang", "alone": lines[0][1]})
+                icls = lines[0][1]
+                idefs = [tuple(l[2:]) for l in lines if l[0] == "D"]
+                retried = True
         if icls == "panic" or icls == "hang":
-            C.violation(ctx, key + ":" + icls, "ParseSchema %ss on %r: %s" % (icls, shown[:200], txt([r for r in rows if r[0] == "P"][0][3])),
+            C.violation(ctx, key + ":" + icls, "ParseSchema %ss on %r: %s" % (icls, shown[:200], txt(([r for r in rows if r[0] == "P"][0] + ["-", "-"])[3])),
                         dict(replay, expected="a schema or an error", got=icls))
             continue
         if kind == "valid" and icls != "ok":
@@ -451,6 +505,8 @@ def run(ctx):
                            "" if first is None else "; first difference: model %s / impl %s" % (show_def(mdefs[first]) if first < len(mdefs) else None, show_def(idefs[first]) if first < len(idefs) else None)),
                         dict(replay, no_failing_input=True, model=mcls, implementation=icls, broken="correspondence Parser.v vs tlparser.ParseSchema"))
             continue
+        if retried:
+            continue   # the batch run has no classification / generation lines for this case
         if icls == "ok":
             nontrivial.add(tuple(idefs))
             # run-time instance of C14_parse_print
@@ -519,7 +575,7 @@ def run(ctx):
                  % (3 if ctx.tier == "thorough" else 2),
          "samples": samples, "input_distribution": stats, "coqchk": chk,
          "termination": "C14_parse_terminates: the parser model never exhausts its (linear) loop budget, for every byte string; "
-                        "on the implementation side every ParseSchema call runs under a 5 s watchdog and a 'hang' is a violation with the input as replay", "result_classes": classes, "cursor_method_sequences": cursor_cases, "in_process_generation": inproc_runs,
+                        "on the implementation side every ParseSchema call runs under a 5 s watchdog and a 'hang' is a violation with the input as replay", "result_classes": classes, "cursor_method_sequences": cursor_cases, "in_process_generation": inproc_runs, "timing_retries": timing_retries,
          "disagreements_checked": disagreements, "generator": cst,
          "projection": "result class ok/err/panic/hang; for ok every definition: section, name, id, result type, vector marker, parameters (name, type, vector, conditional, bit) in order; "
                        "classification per type name; per constructor of the compiled package: id, Go type name, fields in order with kind and tl tag, FlagIndex, Implements methods; "
@@ -584,7 +640,7 @@ def replay(ctx, path):
             rc, o = C.sh(["go", "build", "-gcflags=-e", "./out"], cwd=d, timeout=900)
             print("go build rc=%d %s" % (rc, o.strip()[:600]))
             bad = rc != 0
-            if not bad and obj.get("expected_all") is not None:
+            if not bad and (obj.get("expected_all") is not None or str(obj.get("oracle", "")).startswith("execution")):
                 os.makedirs(d + "/cmd/r")
                 with open(d + "/cmd/r/main.go", "w") as f:
                     f.write(open(HERE + "/reflect/main.go.tmpl").read().replace("__PKG__", "github.com/xelaj/mtproto/verifscratch/out"))
@@ -592,11 +648,13 @@ def replay(ctx, path):
                 if rc != 0:
                     raise C.BuildError("reflection program does not build: " + o[-1500:])
                 rc, o = C.sh([d + "/r"], timeout=300)
-                got = reflect_proj([l.split("\t") for l in o.splitlines() if l])
-                want = set(tuple(x) for x in obj["expected_all"])
-                diff = sorted(want ^ got)
-                print("reflection: %d descriptors, %d differ from the schema's: %s" % (len(got), len(diff), [show_item(x) for x in diff[:4]]))
-                bad = rc != 0 or bool(diff)
+                rrows = [l.split("\t") for l in o.splitlines() if l]
+                got = reflect_proj(rrows)
+                badcalls = call_status(rrows)
+                diff = sorted(set(tuple(x) for x in obj["expected_all"]) ^ got) if obj.get("expected_all") is not None else []
+                print("reflection: %d descriptors, %d differ from the schema's: %s; executed methods misbehaving: %s"
+                      % (len(got), len(diff), [show_item(x) for x in diff[:4]], badcalls[:4]))
+                bad = rc != 0 or bool(diff) or bool(badcalls)
         if bad:
             print("VIOLATION property=C14 replay=%s" % path)
             return 1
